@@ -1,5 +1,6 @@
 SPECIFICATION Spec
-CONSTANT Files <- Files4
+CONSTANT Files <- Files3
+CONSTANT Priors <- PriorsMC
 INVARIANT DestAtomic
 INVARIANT FailClean
 INVARIANT RerunCompletes
